@@ -8,7 +8,10 @@ use std::collections::HashMap;
 use std::panic::{AssertUnwindSafe, catch_unwind};
 
 pub fn quiet_panics() {
-    std::panic::set_hook(Box::new(|_| {}));
+    if std::env::var("VERIF_LOUD").is_ok() { return; }
+    // panics of the code under test are caught and classified; a panic of the harness itself on its
+    // main thread still ends the process with status 101
+    std::panic::set_hook(Box::new(|info| { if std::thread::current().name() == Some("main") && std::env::var("VERIF_TRACE_PANICS").is_ok() { eprintln!("{info}"); } }));
 }
 
 pub fn panic_msg(e: Box<dyn std::any::Any + Send>) -> String {
